@@ -11,16 +11,6 @@ namespace SlipVerif.Dispatch
 
 /-! ## 1. the nested hierarchy walk enumerates the applicable tuples in lexicographic order -/
 
-/-- `a` comes before `b` in the class precedence list `p` -/
-def Precedes (p : List Cls) (a b : Cls) : Prop := List.Sublist [a, b] p
-
-/-- `k1` is more specific than `k2` for arguments with precedence lists `precs`: at the first
-    argument (left to right) where they differ, the class of `k1` comes first in that argument's
-    precedence list -/
-def MoreSpecific : List (List Cls) → Key → Key → Prop
-  | p :: ps, a :: k1, b :: k2 => Precedes p a b ∨ (a = b ∧ MoreSpecific ps k1 k2)
-  | _, _, _ => False
-
 theorem keys_sorted (precs : List (List Cls)) : (keys precs).Pairwise (MoreSpecific precs) := by
   induction precs with
   | nil => simp [keys]
@@ -53,20 +43,6 @@ theorem collect_is_lex_sorted (ms : Methods) (precs : List (List Cls)) :
 example : collect [([2, 0], ⟨some ⟨7, .stop⟩, none, none, none⟩), ([1, 1], ⟨some ⟨8, .stop⟩, none, none, none⟩)]
     [[2, 1, 0], [1, 0]] [] = [⟨some ⟨7, .stop⟩, none, none, none⟩, ⟨some ⟨8, .stop⟩, none, none, none⟩] := by decide
 
-theorem moreSpecific_irrefl (precs : List (List Cls)) (hnd : ∀ p ∈ precs, p.Nodup) (k : Key) :
-    ¬ MoreSpecific precs k k := by
-  induction precs generalizing k with
-  | nil => cases k <;> simp [MoreSpecific]
-  | cons p ps ih =>
-    cases k with
-    | nil => simp [MoreSpecific]
-    | cons a k =>
-      simp only [MoreSpecific, true_and]
-      rintro (h | h)
-      · have h2 : [a, a].Nodup := List.Nodup.sublist h (hnd p (by simp))
-        simp at h2
-      · exact ih (fun q hq => hnd q (by simp [hq])) k h
-
 /-- With duplicate-free precedence lists no tuple is visited twice: a method can enter the
     effective method only once. -/
 theorem keys_nodup (precs : List (List Cls)) (hnd : ∀ p ∈ precs, p.Nodup) : (keys precs).Nodup := by
@@ -96,27 +72,6 @@ theorem next_method_p_iff (all rest : List Combo) :
       (∃ c ∈ rest, c.wrap.isSome = true) ∨
       (∃ c ∈ all, c.primary.isSome = true ∨ c.before.isSome = true ∨ c.after.isSome = true) := by
   simp [hasWrap, hasInner, List.any_eq_true, or_assoc]
-
-/-- the ids of the bodies that were started, in order -/
-def entered : List Ev → List Nat
-  | [] => []
-  | .run i :: r => i :: entered r
-  | .enter i _ :: r => i :: entered r
-  | .leave _ :: r => entered r
-
-theorem entered_append (a b : List Ev) : entered (a ++ b) = entered a ++ entered b := by
-  induction a with
-  | nil => rfl
-  | cons e r ih => cases e <;> simp [entered, ih]
-
-theorem entered_runs (bs : List Body) : entered (bs.map (fun b => Ev.run b.id)) = bs.map (·.id) := by
-  induction bs with
-  | nil => rfl
-  | cons b r ih => simp [entered, ih]
-
-theorem entered_runs_rev (bs : List Body) :
-    entered (bs.map (fun b => Ev.run b.id)).reverse = (bs.map (·.id)).reverse := by
-  rw [← List.map_reverse, entered_runs, List.map_reverse]
 
 /-- The specified order in the words of the property: when every applicable :around method
     continues and there is something inside, the bodies start in the order all :around (given most
@@ -234,16 +189,6 @@ theorem table_step (E : Env) (a : Aux) (op : Op) :
 
 /-! ## 4. a call equals the specification -/
 
-theorem eff_empty_iff (eff : List Combo) (h : ∀ c ∈ eff, c.isEmpty = false) :
-    eff.isEmpty = ((eff.filterMap (fun c => c.wrap)).isEmpty && (eff.filterMap (fun c => c.before)).isEmpty
-      && (eff.filterMap (fun c => c.primary)).isEmpty && (eff.filterMap (fun c => c.after)).isEmpty) := by
-  cases eff with
-  | nil => rfl
-  | cons c rest =>
-    have hc := h c (by simp)
-    cases hw : c.wrap <;> cases hb : c.before <;> cases hp : c.primary <;> cases ha : c.after <;>
-      simp_all [Combo.isEmpty]
-
 /-- building the effective method from the table and running it is the specification -/
 theorem build_eq_spec (E : Env) (ms : Methods) (hne : NoEmpty ms) (cs : List Cls) :
     (if (collect ms (cs.map E.cpl) []).isEmpty then (⟨[], .noApplicable⟩ : Out)
@@ -262,22 +207,6 @@ theorem build_eq_spec (E : Env) (ms : Methods) (hne : NoEmpty ms) (cs : List Cls
   have e4 := collected_get ms (cs.map E.cpl) .after
   simp only [Combo.get] at e1 e2 e3 e4
   rw [e1, e2, e3, e4]
-
-theorem filterMap_head_of_const {α β : Type} (f : α → Option β) (b : β) (l : List α)
-    (hall : ∀ x ∈ l, f x = some b ∨ f x = none) (hex : ∃ x ∈ l, f x = some b) :
-    (l.filterMap f).head? = some b := by
-  induction l with
-  | nil => simp at hex
-  | cons x r ih =>
-    rcases hall x (by simp) with hx | hx
-    · simp [hx]
-    · simp only [List.filterMap_cons, hx]
-      apply ih (fun y hy => hall y (by simp [hy]))
-      obtain ⟨y, hy, hfy⟩ := hex
-      simp at hy
-      rcases hy with rfl | hy
-      · rw [hx] at hfy; cases hfy
-      · exact ⟨y, hy, hfy⟩
 
 /-- the single-method fast path returns what the specification says -/
 theorem dflt_eq_spec (E : Env) (ms : Methods) (b : Body) (cs : List Cls)
@@ -344,33 +273,16 @@ theorem call_eq_spec (E : Env) (a : Aux) (h : Inv E a) (cs : List Cls)
 
 /-! ## 5. histories -/
 
-theorem run_cons (E : Env) (a : Aux) (op : Op) (ops : List Op) :
-    run E a (op :: ops) = run E (step E a op).1 ops := by
-  simp [run, runOps]
-
 theorem run_inv (E : Env) (a : Aux) (ops : List Op) (h : Inv E a) : Inv E (run E a ops) := by
   induction ops generalizing a with
   | nil => exact h
   | cons op ops ih => rw [run_cons]; exact ih _ (cache_coherent E a op h)
-
-theorem tableOf_cons (op : Op) (ops : List Op) (t : Table) :
-    tableOf (op :: ops) t = tableOf ops (tableOf [op] t) := by
-  cases op <;> rfl
-
-theorem tableOf_append (ops1 ops2 : List Op) (t : Table) :
-    tableOf (ops1 ++ ops2) t = tableOf ops2 (tableOf ops1 t) := by
-  induction ops1 generalizing t with
-  | nil => rfl
-  | cons op ops ih => rw [List.cons_append, tableOf_cons, ih, ← tableOf_cons]
 
 theorem run_table (E : Env) (a : Aux) (ops : List Op) :
     absT (run E a ops).methods = tableOf ops (absT a.methods) := by
   induction ops generalizing a with
   | nil => rfl
   | cons op ops ih => rw [run_cons, ih, table_step, ← tableOf_cons]
-
-theorem absT_init : absT Aux.init.methods = Table.empty := by
-  funext k q; rfl
 
 /-- every call of a history is made with one class per required argument -/
 def WellFormed (E : Env) (ops : List Op) : Prop := ∀ cs, Op.call cs ∈ ops → cs.length = E.n
@@ -400,13 +312,6 @@ theorem same_table_same_outcome (E : Env) (hT : ∀ c, E.tC ∈ E.cpl c)
     (htab : tableOf ops1 Table.empty = tableOf ops2 Table.empty) :
     (step E (run E Aux.init ops1) (.call cs)).2 = (step E (run E Aux.init ops2) (.call cs)).2 := by
   rw [dispatch_history_independent E hT ops1 cs hlen, dispatch_history_independent E hT ops2 cs hlen, htab]
-
-/-- the outcomes the specification assigns to the operations of a history -/
-def specOuts (E : Env) : List Op → Table → List Out
-  | [], _ => []
-  | .call cs :: ops, t => spec E t cs :: specOuts E ops t
-  | .defmethod q k b :: ops, t => Out.nothing :: specOuts E ops (t.set k q (some b))
-  | .remove q k :: ops, t => Out.nothing :: specOuts E ops (t.set k q none)
 
 theorem runOps_eq_specOuts (E : Env) (hT : ∀ c, E.tC ∈ E.cpl c) (a : Aux) (h : Inv E a)
     (ops : List Op) (hwf : WellFormed E ops) :
